@@ -50,7 +50,7 @@ def make_caller(r, driver, c):
     kinds = simlib.KINDS[driver]
     kind = r.choice(["send", "send", "seq", "seq", "seq", "seq-raise", "seq-cancel", "send-cancel", "manual",
                      "seq-cancel", "send-cancel", "seq-badclean"])
-    if kind == "manual" and driver in ("tridonic", "hasseb"):
+    if kind == "manual" and driver == "hasseb":
         kind = "seq"
     n = 1 if kind.startswith("send") else (1 if kind == "manual" else r.randint(2, 5))
     items = []
@@ -148,8 +148,15 @@ def run_case(driver, seed, part, i, res, forced=None):
             from dali.gear.general import EnableDeviceType
             cmd = spec["items"][0][1]
             async with d.transaction_lock:
-                await d.send(EnableDeviceType(cmd.devicetype), in_transaction=True)
-                await d.send(cmd, in_transaction=True)
+                if driver == "tridonic":
+                    # the HID drivers put the ENABLE DEVICE TYPE prefix themselves; a hand-made transaction here is a bus
+                    # power-supply switch followed by commands, all under the caller's lock
+                    await d.power_supply(True, in_transaction=True)
+                    res.hit("power_supply_in_transaction")
+                    await d.send(cmd, in_transaction=True)
+                else:
+                    await d.send(EnableDeviceType(cmd.devicetype), in_transaction=True)
+                    await d.send(cmd, in_transaction=True)
             return "manual"
         gens[c] = gen_for(c, spec)
         if c % 2 == 0:
